@@ -25,7 +25,9 @@ MC_UpstreamSplit_*.cfg, Gen_UpstreamSplit.cfg
     schedules on the real code, which leaves them where the variant deviates unless it has become that variant;
  3b-3e. scenarios at the real queue capacity (1024): full queues, a request held at the ASKING hand-over by a full
     processing queue, split requests whose children fail, split requests whose last children are answered at the same
-    instant by different goroutines (vectors from UpstreamSplit.tla);
+    instant by different goroutines (vectors from UpstreamSplit.tla), more small requests outstanding on one backend
+    connection than its processing queue holds with a responsive backend and no fault (c02-smallreqs; model: BufCap < QCap,
+    NoStuckWriter, MC_Upstream_bufcap_*.cfg);
  4. code -> spec: free-running pipelines with faults (checks/pipeline driver), boundary trace validated
     by TLC against PipelineObs.tla.
 """
@@ -60,7 +62,10 @@ MANDATORY = [w for w in WINDOWS if w not in SCALED_ONLY]
 
 
 # at most this many TLC processes of this check at a time (other checks run beside us); the generators go first
-TLC_SLOTS = threading.BoundedSemaphore(8)
+# VERIF_C02_PARALLEL (default 6): TLC processes at a time (each with at most 3 workers in the quick tier, 4 in the thorough
+# tier) and worker processes of the forced replay (these mostly wait)
+PAR = max(2, int(os.environ.get("VERIF_C02_PARALLEL", "6")))
+TLC_SLOTS = threading.BoundedSemaphore(PAR)
 
 
 def limited(fn, *a, **kw):
@@ -226,7 +231,7 @@ def finish_pipeline(ctx, job, label):
         ctx.notes.append("pipeline stage inconclusive after violations")
 
 
-def replay_sharded(ctx, behs, shards, attempts, tag=""):
+def replay_sharded(ctx, behs, shards, attempts, tag="", fewer_from=0):
     """forced replay in `shards` worker processes (the hook scheduler is process wide); returns results by behaviour index"""
     bfile = os.path.join(ctx.work, "behaviours%s.ndjson" % tag)
     kit.write_ndjson(bfile, [b["steps"] for b in behs])
@@ -234,7 +239,7 @@ def replay_sharded(ctx, behs, shards, attempts, tag=""):
     for k in range(shards):
         rfile = os.path.join(ctx.work, "replay%s-%d.ndjson" % (tag, k))
         jobs.append((rfile, Bg(ctx.harness, ["c02-replay", "-in", bfile, "-out", rfile, "-attempts", str(attempts),
-                                             "-shard", str(k), "-of", str(shards), "-stopafter", "1"],
+                                             "-shard", str(k), "-of", str(shards), "-stopafter", "1", "-fewerfrom", str(fewer_from)],
                                timeout=1500, allow_fail=True)))
     t0 = time.time()
     results, crashes = {}, []
@@ -267,7 +272,7 @@ def run(ctx):
     gen_jobs = [Bg(gen_behaviours, ctx, "Gen_Upstream.cfg", num, 160, ctx.seed),
                 Bg(gen_behaviours, ctx, "Gen_Upstream_ask.cfg", num, 160, ctx.seed + 1),
                 Bg(gen_behaviours, ctx, "Gen_Upstream_banned.cfg", num // 2, 160, ctx.seed + 2)]
-    cex_jobs = {}
+    cex_jobs = {cfg: Bg(gen_behaviours, ctx, cfg, 2000 if ctx.thorough else 300, 160, ctx.seed + 3) for cfg in sorted(CEX)}
     # 3b-3e. scenarios at the real queue capacity, beside the model checking
     scen_jobs = start_scenarios(ctx)
     # 4. (runs beside everything else) free-running pipelines with faults, trace validated against PipelineObs
@@ -306,7 +311,7 @@ def select_cex(ctx, cex_jobs, per_variant):
 def run_stages(ctx, gen_jobs, cex_jobs, scen_jobs, pipe_job, num):
     # 1. exhaustive, repaired design; 2. the broken variants still yield their counterexamples
     lost = ["NoLostRequest", "NoStuckSender", "TEMPORAL"]
-    mcs = [("Upstream", "MC_Upstream_fixed.cfg" if ctx.thorough else "MC_Upstream_fixed_quick.cfg", None, 6 if ctx.thorough else 3, not ctx.thorough)]
+    mcs = [("Upstream", "MC_Upstream_fixed.cfg" if ctx.thorough else "MC_Upstream_fixed_quick.cfg", None, 4 if ctx.thorough else 3, not ctx.thorough)]
     # quick tier: a broken variant whose counterexample stratum is generated below (CEX: TLC must find violating behaviours of
     # it, see select_cex) is not model checked a second time; the thorough tier runs its exhaustive configuration as well
     redundant = not ctx.thorough
@@ -321,8 +326,7 @@ def run_stages(ctx, gen_jobs, cex_jobs, scen_jobs, pipe_job, num):
         mcs.append(("Upstream", "MC_Upstream_ask_fixed.cfg", None, 3, False))
         mcs.append(("Upstream", "MC_Upstream_ask3_stop.cfg", None, 4, False))   # three requests: the full processing queue at the ASKING hand-over
     else:
-        mcs.append(("Upstream", "MC_Upstream_ask_stop.cfg", None, 3, False))
-        mcs.append(("Upstream", "MC_Upstream_ask_reset.cfg", None, 2, False))
+        mcs.append(("Upstream", "MC_Upstream_ask_stop.cfg", None, 3, False))   # (the reset half, MC_Upstream_ask_reset.cfg, is part of the thorough MC_Upstream_ask_fixed.cfg)
     if not redundant:
         mcs.append(("Upstream", "MC_Upstream_ask_broken.cfg", lost, 2, False))
         # a sender that drains on quit instead of stopped: a request gets the reply of another
@@ -330,26 +334,35 @@ def run_stages(ctx, gen_jobs, cex_jobs, scen_jobs, pipe_job, num):
         mcs.append(("Upstream", "MC_Upstream_drainonquit3.cfg", ["PairingFIFO", "OwnReply"], 3, False))
         # a failed flush behind a filter-answered request that answers the request again
         mcs.append(("Upstream", "MC_Upstream_filteredfail.cfg", ["AtMostOnce"], 2, False))
+    # the write buffer against the processing queue: no fault, the writer must not block for ever with nothing on the wire
+    if ctx.thorough:
+        mcs.append(("Upstream", "MC_Upstream_bufcap_fixed.cfg", None, 3, False))
+        mcs.append(("Upstream", "MC_Upstream_bufcap_broken.cfg", ["NoLostRequest", "NoStuckWriter", "TEMPORAL"], 3, False))
+    mcs.append(("Upstream", "MC_Upstream_bufcap_fixed_quick.cfg", None, 2, False))
+    mcs.append(("Upstream", "MC_Upstream_bufcap_broken_quick.cfg", ["NoLostRequest", "NoStuckWriter", "TEMPORAL"], 2, False))
     # a split request: the last children answered by different goroutines
-    mcs.append(("UpstreamSplit", "MC_UpstreamSplit_fixed.cfg", None, 2, False))
+    if ctx.thorough:   # quick: Gen_UpstreamSplit.cfg is the same exhaustive run with the same invariants (3e)
+        mcs.append(("UpstreamSplit", "MC_UpstreamSplit_fixed.cfg", None, 2, False))
     mcs.append(("UpstreamSplit", "MC_UpstreamSplit_broken.cfg", ["ParentAtMostOnce"], 2, False))
     # the clean runs are the long ones: they go first, the counterexample runs (which stop at the first violation) and the
     # generators of the counterexample strata fill the remaining slots
     mcs.sort(key=lambda x: (x[2] is not None))
     mc_jobs = [(m, cfg, exp, Bg(limited, ctx.mc, "redis", m, cfg, workers=wk, timeout=1500, coverage=cov, expect_violated=exp, count=False))
                for (m, cfg, exp, wk, cov) in mcs]
-    for cfg in sorted(CEX):
-        cex_jobs[cfg] = Bg(gen_behaviours, ctx, cfg, 2000 if ctx.thorough else 300, 160, ctx.seed + 3)
     behs = []
     for j in gen_jobs:
         behs += j.wait()
     if len(behs) < num // 2:
         raise kit.Inconclusive("only %d behaviours emitted" % len(behs))
-    chosen, n_uniq = select_behaviours(ctx, behs, per_window=40 if ctx.thorough else 10, per_point=12 if ctx.thorough else 2,
-                                       total=500 if ctx.thorough else 88)
-    replay_job = Bg(replay_sharded, ctx, chosen, 10 if ctx.thorough else 8, 3)
-    cex = select_cex(ctx, cex_jobs, 30 if ctx.thorough else 5)
-    cex_job = Bg(replay_sharded, ctx, cex, 6 if ctx.thorough else 5, 2, "-cex")
+    chosen, n_uniq = select_behaviours(ctx, behs, per_window=40 if ctx.thorough else 6, per_point=12 if ctx.thorough else 2,
+                                       total=500 if ctx.thorough else 64)
+    # PAR worker processes at a time: the strata first, then the counterexample schedules (2 attempts each: the real code
+    # leaves them by design)
+    def both():
+        first = replay_sharded(ctx, chosen, PAR, 3)
+        cex = select_cex(ctx, cex_jobs, 30 if ctx.thorough else 5)
+        return first, cex, replay_sharded(ctx, cex, PAR, 2, "-cex")
+    replay_job = Bg(both)
 
     for m, cfg, exp, job in mc_jobs:
         r = job.wait()
@@ -358,8 +371,9 @@ def run_stages(ctx, gen_jobs, cex_jobs, scen_jobs, pipe_job, num):
             ctx.cov["transitions"] += r.generated
         if r.coverage:
             ctx.check_vacuity(r, m, ignore=("WriterFiltered", "WriterFilteredFlush", "WriterAsk"))  # exercised by MC_Upstream_banned_*.cfg / MC_Upstream_ask_*.cfg
-    judge_replays(ctx, chosen, n_uniq, *replay_job.wait())
-    judge_replays(ctx, cex, None, *cex_job.wait())
+    first, cex, second = replay_job.wait()
+    judge_replays(ctx, chosen, n_uniq, *first)
+    judge_replays(ctx, cex, None, *second)
     judge_scenarios(ctx, scen_jobs)
     finish_pipeline(ctx, pipe_job, "c02")
     ctx.cov["rule"] = ("behaviours = TLC simulation of UpstreamGen (seeded), stratified over the fault point; a mandatory stratum per named "
@@ -499,6 +513,8 @@ def start_scenarios(ctx):
     afile = os.path.join(ctx.work, "askfull.ndjson")
     jobs["askfull"] = (afile, Bg(ctx.harness, ["c02-askfull", "-out", afile], timeout=600))
     jobs["concurrent"] = (None, Bg(concurrent_children, ctx))
+    sfile = os.path.join(ctx.work, "smallreqs.ndjson")
+    jobs["smallreqs"] = (sfile, Bg(ctx.harness, ["c02-smallreqs", "-out", sfile], timeout=600))
     return jobs
 
 
@@ -582,3 +598,19 @@ def judge_scenarios(ctx, jobs):
                                       "lined_up_inside_SetResponse": aligned}
     if recs and not ctx.violations and aligned < rounds * 0.5:
         ctx.notes.append("concurrent children: only %d of %d requests lined up" % (aligned, rounds))
+    # 3f. more small requests outstanding on one backend connection than its processing queue has entries; responsive backend, no fault
+    sfile, job = jobs["smallreqs"]
+    job.wait()
+    for r in kit.read_ndjson(sfile):
+        if r.get("err"):
+            ctx.notes.append("smallreqs/%s: %s" % (r["case"], r["err"]))
+            continue
+        ctx.case(key=["smallreqs", r["case"]], nontrivial=r["children"] > 1024, n=r["children"])
+        if r["unanswered"] > 0:
+            ctx.violation("lost-request/small-requests-exceed-queue",
+                          "%d of %d request(s) never answered although the backend is responsive and nothing failed: %s - %d small backend "
+                          "requests for one connection, more than its processing queue holds (1024); the writer must never block at a "
+                          "hand-over with nothing on the wire (Upstream.tla NoStuckWriter, BufCap < QCap)" % (
+                              r["unanswered"], r["requests"], r.get("firstBad"), r["children"]), r)
+        if r["wrong"] > 0:
+            ctx.violation("reply-mismatch/small-requests-exceed-queue", "%s" % r.get("firstBad"), r)
